@@ -298,7 +298,9 @@ func (r *Run) zeroInit(st *State, ptr Val, el types.Type) {
 			case *types.Struct:
 				r.zeroInit(st, locVal(l, types.NewPointer(ft)), ft)
 			case *types.Array:
-				// leave unconstrained
+				if l.Kind == LElem {
+					r.zeroInit(st, termVal(l.Base, types.NewPointer(ft)), ft)
+				}
 			default:
 				r.store(st, l, termVal(zeroOf(ft), ft))
 			}
@@ -343,6 +345,14 @@ func (r *Run) copyStruct(st *State, dst *Loc, val Val) {
 			}
 			continue
 		}
+		if _, isArr := ft.Underlying().(*types.Array); isArr {
+			var sl *Loc
+			if hasSrc {
+				sl = r.fieldLoc(sptr, i)
+			}
+			r.copyArrayLoc(st, dl, sl)
+			continue
+		}
 		if hasSrc {
 			if sl := r.fieldLoc(sptr, i); sl != nil {
 				r.store(st, dl, r.load(st, sl))
@@ -366,8 +376,27 @@ func (r *Run) copyStructLoc(st *State, dst *Loc, src Val) {
 			r.copyStructLoc(st, dl, locVal(sl, types.NewPointer(u.Field(i).Type())))
 			continue
 		}
+		if _, isArr := u.Field(i).Type().Underlying().(*types.Array); isArr {
+			r.copyArrayLoc(st, dl, sl)
+			continue
+		}
 		r.store(st, dl, r.load(st, sl))
 	}
+}
+
+// copyArrayLoc: whole-array assignment between two arrays stored at offset 0 of their rows (src == nil: unknown contents)
+func (r *Run) copyArrayLoc(st *State, dl, sl *Loc) {
+	if dl == nil || dl.Kind != LElem {
+		return
+	}
+	m := r.heapGet(st, dl.Comp)
+	var row Term
+	if sl != nil && sl.Kind == LElem && sl.Comp == dl.Comp {
+		row = Select(m, sl.Base)
+	} else {
+		row = r.ctx.Fresh("arrcopy", arraySort(SInt, dl.Sort))
+	}
+	r.heapSet(st, dl.Comp, r.ctx.Define("h."+dl.Comp, Store(m, dl.Base, row)))
 }
 
 func (r *Run) nilCheck(fr *Frame, ptr Val, reach Term, pos token.Pos, what string) {
@@ -394,6 +423,13 @@ func (r *Run) unop(fr *Frame, st *State, reach Term, ins *ssa.UnOp) Val {
 			// struct value: copy into fresh storage so later mutation of the source does not alias
 			ref := r.freshRef(st, "structval")
 			nv := termVal(ref, types.NewPointer(l.Typ))
+			if g, ok := ins.X.(*ssa.Global); ok {
+				if gv, ok := g.Object().(*types.Var); ok && r.prog.zeroGlobal(gv) {
+					// a package-level struct that nothing ever writes: the zero value
+					r.zeroInit(st, nv, l.Typ)
+					return termVal(ref, ins.Type())
+				}
+			}
 			r.copyStructLoc(st, r.derefLoc(nv), locVal(l, types.NewPointer(l.Typ)))
 			return termVal(ref, ins.Type())
 		}
@@ -571,13 +607,6 @@ func (r *Run) indexAddr(fr *Frame, st *State, reach Term, ins *ssa.IndexAddr) Va
 		r.safety(fr, "index", reach, And(Le(mkInt(0), i), Lt(i, mkInt(arr.Len()))), ins.Pos(), "array index out of range")
 		l := r.derefLoc(x)
 		if l == nil || l.Kind != LElem {
-			if x.Kind == VLoc && x.Loc.Kind == LComp {
-				// array stored inline in a struct field: model as per-object element memory keyed by the field component
-				comp := x.Loc.Comp + "[]"
-				srt := sortOf(arr.Elem())
-				r.regComp(comp, arraySort(SInt, arraySort(SInt, srt)))
-				return locVal(&Loc{Kind: LElem, Comp: comp, Sort: srt, Base: x.Loc.Idx, Off: i, Typ: arr.Elem()}, ins.Type())
-			}
 			break
 		}
 		return locVal(&Loc{Kind: LElem, Comp: l.Comp, Sort: l.Sort, Base: l.Base, Off: Add(l.Off, i), Typ: arr.Elem()}, ins.Type())
